@@ -21,7 +21,7 @@ from lib import vlib
 from lib.vlib import cq_bool, cq_list, cq_nat
 from harness import daggen
 from harness.universe import Universe, export_plan, table_rows, kf_tfs_partial_requirement, kf_framework_roundtrip, kf_tfs_missing
-from harness.orch import (GateListener, run_observed, run_gated, cq_plan, export_adj, install)
+from harness.orch import (GateListener, FileListener, run_observed, run_gated, cq_plan, export_adj, install, flight_server, stop_flight_server)
 
 LEVEL = "proof"
 logging.disable(logging.CRITICAL)
@@ -275,6 +275,40 @@ def run(rep: vlib.Reporter, tier: str, seed: int) -> None:
             else:
                 found |= classify(i, g["plan"], f"THREADING schedule {schedule}: {failure}", replay, True,
                                   f"threading:{json.dumps(r['spec'], sort_keys=True)}:{schedule}")
+    # MULTIPROCESSING (sampled schedules): the same judge on traces written by the worker processes
+    from mloda.user import ParallelizationMode
+    n_mp = 40 if big else 5
+    dist["mp_runs"] = 0
+    dist["mp_failures"] = 0
+    for i, r in enumerate(recs):
+        if dist["mp_runs"] >= n_mp:
+            break
+        if r["sync"]["status"] != "ok" or kf_tfs_partial_requirement(r["plan"]) or kf_tfs_missing(r["plan"]) or kf_framework_roundtrip(r["plan"]):
+            continue
+        if any(st["kind"] == "TFS" and st["from_cfw"] != "PyArrowTable" for st in r["plan"]["steps"]):
+            continue            # C06-mp-transform-from-non-arrow-source
+        fl = FileListener(str(vlib.BUILD / "C01" / f"mp_trace_{i}.jsonl"))
+        uni = Universe(r["spec"], fl)
+        sess = uni.prepare()
+        plan = export_plan(sess, uni)
+        o = run_observed(sess, modes={ParallelizationMode.MULTIPROCESSING}, flight_server=flight_server(), timeout=60)
+        dist["mp_runs"] += 1
+        rep.count(1)
+        events, calls = fl.read()
+        fg_sids = [s_["sid"] for s_ in plan["steps"] if s_["kind"] == "FG"]
+        # Step.execute runs in the worker process: begin order is not observable here, the per-call trace is
+        jr = judge_trace(r["spec"], events, {"steps": []}, [], o["status"], calls)
+        if o["status"] == "ok" and jr is None:
+            n_calls = len([e for e in events if e[0] == "enter"])
+            if n_calls != len(fg_sids):
+                jr = f"{n_calls} calculation calls for {len(fg_sids)} feature-group steps"
+        failure = jr or (None if o["status"] == "ok" else f"run {o['status']}: {str(o.get('exc'))[-160:]}")
+        if failure:
+            dist["mp_failures"] += 1
+            replay = {"kind": "mp", "spec": r["spec"], "failure": failure}
+            rep.finding(f"mp:{json.dumps(r['spec'], sort_keys=True)}", f"MULTIPROCESSING: {failure}", replay)
+            found = True
+    stop_flight_server()
     dist["plans_in_kf_tfs_partial"] = sum(1 for r in recs if kf_tfs_partial_requirement(r["plan"]))
     dist["plans_in_kf_tfs_missing"] = sum(1 for r in recs if kf_tfs_missing(r["plan"]))
     dist["plans_in_kf_roundtrip"] = sum(1 for r in recs if kf_framework_roundtrip(r["plan"]))
